@@ -128,13 +128,14 @@ theorem quietRun_of_no_schema_write (cfg : Config) (hs : cfg.schemaWritesRequire
 
 theorem excluded_of_safe (cfg : Config) (hs : cfg.safe = true) (h : List WorldOp) : Excluded cfg h := by
   cases cfg with
-  | mk a b c d e =>
+  | mk a b b2 c d e =>
     cases a <;> cases d <;> simp [Config.safe] at hs
     exact ⟨by simp, quietRun_of_no_schema_write _ rfl h World.initial⟩
 
 theorem cachesById_of_safe (cfg : Config) (hs : cfg.safe = true) : cfg.cachesById = true := by
   cases cfg with
-  | mk a b c d e => cases a <;> cases b <;> cases c <;> cases d <;> cases e <;> simp [Config.safe, Config.cachesById] at *
+  | mk a b b2 c d e =>
+    cases a <;> cases b <;> cases b2 <;> cases c <;> cases d <;> cases e <;> simp [Config.safe, Config.cachesById] at *
 
 /-- C15 at full strength holds for every configuration whose switches are all off … -/
 theorem C15_of_safe_config (cfg : Config) (hs : cfg.safe = true) : C15_statement cfg :=
@@ -176,13 +177,14 @@ theorem use_changes_no_view_today (W : List (String × TypeId)) (w : World)
   have hq : quietStep (configOf Generated.registries) w op = true := by
     have := quietRun_of_no_schema_write (configOf Generated.registries)
       (by cases hc : configOf Generated.registries with
-          | mk a b c d e => rw [hc] at hs; cases d <;> simp_all [Config.safe]) [op] w
+          | mk a b b2 c d e => rw [hc] at hs; cases d <;> simp_all [Config.safe]) [op] w
     simpa [quietRun] using this
   exact use_changes_no_view _ (cachesById_of_safe _ hs) W w g op huse hq d
 
 /-- switch-wise implication: every finding switch that is on in `a` is on in `b` -/
 def Config.le (a b : Config) : Bool :=
   (!a.wrapperByName || b.wrapperByName) && (!a.mapperByName || b.mapperByName) &&
+  (!a.mapperDropsCamel || b.mapperDropsCamel) &&
   (!a.simplicityByName || b.simplicityByName) && (!a.schemaWritesRequired || b.schemaWritesRequired) &&
   (!a.serializerOnBase || b.serializerOnBase)
 
@@ -195,12 +197,13 @@ theorem config_no_worse : Config.le (configOf Generated.registries) (configOf Pi
 
 /-- the configuration the tree had before /repo 2a0935f and 6efdaf1: wrapper registry name-keyed,
     `_required` written in place -/
-def findingsCfg : Config := ⟨true, false, false, true, false⟩
+def findingsCfg : Config := ⟨true, false, false, false, true, false⟩
 
 /-! ### the repaired defects: what the model does with the old switches on, and with today's table -/
 
 def fld (name : String) (kind : FieldKind) (dflt : Bool := false) (key : String := name) : FieldSpec :=
-  { name := name, kind := kind, hasDefault := dflt, serKey := key, fastOk := true, trustedOk := true,
+  { name := name, kind := kind, hasDefault := dflt, serKey := key, camelKey := key ++ "^", camelName := name ++ "^",
+    fastOk := true, trustedOk := true,
     schemaOk := true, inlines := 0 }
 
 def clsA : ClassSrc := ⟨"A", none, [fld "x" (.wrap "User" 1)], false, none⟩
@@ -280,7 +283,7 @@ def clsR : ClassSrc := ⟨"Box", none, [fld "o" (.ref 1), fld "u" (.wrap "User" 
     worlds differ -/
 def hEx : List WorldOp :=
   [.define 0 clsP, .construct 0 [("id", .prim 0 true), ("who", .inst 1)], .setDefault .addProps false,
-   .define 1 clsQ, .serialize 0 [("id", .prim 0 true), ("who", .inst 1)], .createSerializer 1, .toSchema 0,
+   .define 1 clsQ, .serialize 0 [("id", .prim 0 true), ("who", .inst 1)] false, .createSerializer 1, .toSchema 0,
    .define 5 clsB, .toSchema 5, .trustedDeserialize 1 [], .setDefault .addProps true, .define 2 clsR,
    .deserialize 2 [("o", .struct 1), ("u", .inst 2)], .toSchema 1, .toSchema 2, .define 6 clsD]
 
@@ -294,6 +297,43 @@ theorem frame_example :
          (.construct 2 [("o", .struct 1), ("u", .inst 2)])).2.accepted = true
     ∧ runW (configOf Generated.registries) World.initial hEx
         ≠ runW (configOf Generated.registries) World.initial (slice (fun d => d ≤ 2) hEx) := by
+  decide +kernel
+
+/-! ### `camel_case_convert` as a use-parameter, positional arrays of several Structure item types -/
+
+/-- a tree whose mapper cache key omits the `camel_case_convert` argument -/
+def dropsCamelCfg : Config := ⟨false, false, true, false, false, false⟩
+
+def hCamel : List WorldOp :=
+  [.define 0 clsS, .serialize 0 [("a", .prim 0 true), ("b", .prim 2 true)] true,
+   .serialize 0 [("a", .prim 0 true), ("b", .prim 2 true)] false]
+
+/-- with the flag dropped from the key, a plain serialize after a camel-case one emits the camel-case keys
+    and the class's view differs from its view alone; with today's table the second call emits the plain
+    keys and the view is the view alone -/
+theorem camel_key_dropped_breaks_frame :
+    view dropsCamelCfg (runW dropsCamelCfg World.initial hCamel) 0
+      ≠ view dropsCamelCfg (runW dropsCamelCfg World.initial [.define 0 clsS]) 0
+    ∧ (obsW dropsCamelCfg World.initial hCamel).map (·.keys) = [[], ["aa^", "b^"], ["aa^", "b^"]]
+    ∧ (obsW (configOf Generated.registries) World.initial hCamel).map (·.keys) = [[], ["aa^", "b^"], ["aa", "b"]]
+    ∧ view (configOf Generated.registries) (runW (configOf Generated.registries) World.initial hCamel) 0
+      = view (configOf Generated.registries) (runW (configOf Generated.registries) World.initial [.define 0 clsS]) 0 := by
+  decide +kernel
+
+def clsLine : ClassSrc := ⟨"Line", none, [fld "parts" (.refs [0, 1]), fld "n" (.prim 0) true], false, none⟩
+
+/-- a container with a positional array of two Structure item types: serializing / schema-mapping the
+    container leaves both item classes as when defined alone (today's table) -/
+theorem refs_example :
+    closed (fun d => d == 0) [.define 0 clsS, .define 1 clsA, .define 2 clsLine] = true
+    ∧ closed (fun d => d ≤ 2) [.define 0 clsS, .define 1 clsA, .define 2 clsLine] = true
+    ∧ (stepW (configOf Generated.registries)
+         (runW (configOf Generated.registries) World.initial [.define 0 clsS, .define 1 clsA, .define 2 clsLine])
+         (.serialize 2 [("parts", .structs [0, 1])] true)).2.accepted = true
+    ∧ view (configOf Generated.registries)
+        (runW (configOf Generated.registries) World.initial
+          [.define 0 clsS, .define 1 clsA, .define 2 clsLine, .serialize 2 [("parts", .structs [0, 1])] true, .toSchema 2]) 0
+      = view (configOf Generated.registries) (runW (configOf Generated.registries) World.initial [.define 0 clsS]) 0 := by
   decide +kernel
 
 end Typedpy.C15
